@@ -2200,9 +2200,12 @@ int32 matrixSslSentData(ssl_t *ssl, uint32 bytes)
     }
     /* Indicate the handshake is complete, in this case, the finished message
         is being/has been just sent. Occurs in session resumption. */
-    if (!(ssl->bFlags & BFLAG_HS_COMPLETE) &&
+    if (rc != MATRIXSSL_REQUEST_CLOSE &&
+        !(ssl->bFlags & BFLAG_HS_COMPLETE) &&
         matrixSslHandshakeIsComplete(ssl))
     {
+        /* (Not when the data just flushed ended with our fatal alert: the
+           close request must not be replaced by a success indication.) */
         ssl->bFlags |= BFLAG_HS_COMPLETE;
 # ifdef USE_CLIENT_SIDE_SSL
         matrixSslGetSessionId(ssl, ssl->sid);
